@@ -114,4 +114,37 @@ PROPS = {
              'distinct case text',
         explanation='C05_decide_check_sound: accepted rows satisfy decide_spec (minimal k, real conflict on rejection).',
     ),
+    'C03': dict(
+        level='proof',
+        level_text='Rocq theorems about a faithful model of LRParser::parse_into/call_action/pop_n and a Jourdan-Pottier-Leroy style safety '
+                   'validator: for every table that passes lr_validate and EVERY input, an accepted input is a sentence, the tree is a '
+                   'derivation tree rooted at the start symbol covering every token, and the reductions are reported once each in the order '
+                   'of a rightmost derivation in reverse (C03_lr_safe_check_sound, C03_reductions_rightmost), with no index failure '
+                   '(C03_lr_no_panic). Tie to the code: the real calculate_lalr1_parse_table output is validated; the real LRParser is run '
+                   'on sentences, mutants and all strings up to a length bound and compared with the model (verdict, reductions, tree) and '
+                   'with the verified recogniser member (completeness per instance: a test, not a theorem).',
+        level_note='Trusted: Coq kernel, extraction, OCaml driver, Rust harness (table conversion to the runtime layout, alphabet scanner, '
+                   'tree-event recorder). lalry is not modelled (its output is validated). Completeness of acceptance is tested within the '
+                   'length bound only. max_parsing_depth/trim are not in the model (C20).',
+        technique='Rocq proof (LR stack invariant under a validated annotation) + translation validation of the generated table + differential run',
+        streams=[dict(cmd='c03', quick=160, thorough=6000)],
+        rule='grammars: left-recursive lists, expression grammar, ambiguous E+E, recursive single-production start, random clean BNF; for each '
+             'built table: random sentences, mutated sentences and all strings up to length 3-6 over the grammar terminals; a case = one '
+             'grammar with all its runs; non-trivial = at least one run of length >= 2 agreed with model and recogniser; distinct = distinct case text',
+        explanation='C03_lr_safe_check_sound etc.; D1 (recursive start not isolated -> Accept in nested context / lalry panic) repaired in C12 fix.',
+    ),
+    'C04': dict(
+        level='proof',
+        level_text='(ii) Rocq theorem: soundness of acceptance for any table that passes the LR safety validator needs no conflict-freedom '
+                   '(C04_resolution_stays_sound), so tables with resolved conflicts accept only sentences, for all inputs. (i) is decided per '
+                   'instance only: panics during table construction are violations; when no conflict is reported the real parser must accept '
+                   'exactly the language within the length bound.',
+        level_note='Same trusted base as C03. No reference LALR(1) construction is verified here, so "every conflict is reported" is only '
+                   'partially decided (a silently dropped conflict is caught if it loses or adds a sentence within the bound).',
+        technique='Rocq proof (validator soundness independent of conflicts) + translation validation + differential run against the verified recogniser',
+        streams=[dict(cmd='c03', quick=160, thorough=6000, extra=['--conflicts'])],
+        rule='as C03 with more ambiguous / conflicting grammars; non-trivial = table with at least one resolved conflict or a recursive/cyclic '
+             'structure, agreed on a run of length >= 2; distinct = distinct case text',
+        explanation='C04_resolution_stays_sound; cyclic grammars make lalry panic (known finding D13).',
+    ),
 }
